@@ -887,7 +887,11 @@ class CallMixin(object):
                 yield st, lift(recv.py.encode(args[0].py if args else 'utf-8'))
                 return
             if name == 'format':
-                raise Unsupported('str.format at line %s' % line)
+                hook = self.spec.hints.get('str_format')
+                if hook is None:
+                    raise Unsupported('str.format at line %s' % line)
+                yield from hook(self, recv.py, args, kw, st, n)
+                return
             recv = lift_seq_const(recv.py)
         if isinstance(recv, SeqV):
             yield from self.seq_method(recv, name, args, kw, st, n)
@@ -1086,6 +1090,9 @@ class CallMixin(object):
             return
         if name == 'join':
             yield from self.join(recv, args[0], st, n)
+            return
+        if name in ('rstrip', 'strip', 'lstrip') and self.spec.hints.get('str_strip') is not None:
+            yield from self.spec.hints['str_strip'](self, recv, name, args, st, n)
             return
         if name == 'lower' and recv.kind == 'str':
             hook = self.spec.hints.get('str_lower')
